@@ -615,9 +615,15 @@ func doReplay(file string) {
 			fmt.Printf("replay %d: inconclusive: %s\n", i, t.Inconclusive)
 		case len(t.Viol) > 0:
 			fails++
-			fmt.Printf("replay %d: %s: %s\n", i, t.Viol[0].Key, t.Viol[0].What)
+			v := t.Viol[0]
+			for _, x := range t.Viol { // prefer the class the replay file was written for
+				if x.Key == f.Key {
+					v = x
+				}
+			}
+			fmt.Printf("replay %d: %s: %s\n", i, v.Key, v.What)
 			if i == 0 {
-				run.Violation(t.Viol[0].Key, t.Viol[0].What, f.Replay)
+				run.Violation(v.Key, v.What, f.Replay)
 			}
 		default:
 			fmt.Printf("replay %d: no violation; outcome %s\n", i, t.Outcome)
